@@ -114,7 +114,7 @@ PURE_BUILTINS = {'len', 'isinstance', 'bool', 'int', 'str', 'type', 'id', 'abs',
 OBSERVERS = {'full', 'empty', 'qsize', 'is_set', 'is_alive', 'locked'}
 
 
-def expand_locals(expr, fnode, depth=3, params=(), observers=False):
+def expand_locals(expr, fnode, depth=3, params=(), observers=False, fresh=None):
     """a copy of `expr` in which every local name with exactly one (plain) definition in the function is replaced by the defining
     expression, recursively: `head = self.queue.deque[0]; head.signal != X`  ->  `self.queue.deque[0].signal != X`.
     Flow-insensitive: only names defined once, by a call-free expression, are expanded (the value cannot have changed in between
@@ -129,6 +129,8 @@ def expand_locals(expr, fnode, depth=3, params=(), observers=False):
         def visit_Name(self, n):
             if isinstance(n.ctx, ast.Load) and n.id not in params and self.level < depth:
                 d = unique_def(defs, n.id)
+                if d is not None and fresh is not None and any(isinstance(x, ast.Call) for x in ast.walk(d) if isinstance(d, ast.AST)) and not fresh(n.id, d):
+                    d = None        # an observation taken too early to stand for the test
                 if d is not None and isinstance(d, ast.AST) and not any(isinstance(x, ast.Call) and not (isinstance(x.func, ast.Name) and x.func.id in PURE_BUILTINS)
                                                                         and not (observers and isinstance(x.func, ast.Attribute) and x.func.attr in OBSERVERS and not x.args and not x.keywords)
                                                                         for x in ast.walk(d)) \
